@@ -29,9 +29,18 @@ func IsValidSCTE35Interval(adsPerMinute int) error {
 // 2: 10s and 40s after full minute (10 duration)
 // 3: 10s, 36s, 46s after full minute (10s duration)
 func CreateEmsgAhead(segStart, segEnd, timescale uint64, perMinute int) (*mp4.EmsgBox, error) {
+	return CreateEmsgAheadOffset(segStart, segEnd, timescale, perMinute, 0)
+}
+
+// CreateEmsgAheadOffset is CreateEmsgAhead for a media timeline that starts wallOffset (in timescale units)
+// after a full wall-clock minute (availabilityStartTime not a multiple of 60s).
+// The splice times follow the wall-clock minute.
+func CreateEmsgAheadOffset(segStart, segEnd, timescale uint64, perMinute int, wallOffset uint64) (*mp4.EmsgBox, error) {
 	if err := IsValidSCTE35Interval(perMinute); err != nil {
 		return nil, err
 	}
+	segStart += wallOffset
+	segEnd += wallOffset
 	modMinute := segStart % (60 * timescale)
 	minuteStart := segStart - modMinute
 	var spliceInsertTimes []uint64
@@ -61,6 +70,7 @@ func CreateEmsgAhead(segStart, segEnd, timescale uint64, perMinute int) (*mp4.Em
 	if !inInterval {
 		return nil, nil
 	}
+	spliceTime -= wallOffset // Back to media time
 	emsgID := spliceTime / timescale
 	p := SpliceInsertParams{
 		PtsTime:                    uint64(spliceTime/timescale*90000) % (1 << 33), // spliceTime is a whole second
